@@ -17,6 +17,7 @@ from spacepackets.ccsds.time.common import (
     convert_unix_days_to_ccsds_days,
     CcsdsTimeCodeId,
     MS_PER_DAY,
+    UNIX_EPOCH,
 )
 
 
@@ -227,11 +228,12 @@ class CdsShortTimestamp(CcsdsTimeProvider):
         instance = cls.empty(False)
         instance._datetime = dt
         instance._unix_seconds = dt.timestamp()
-        full_unix_secs = int(math.floor(instance._unix_seconds))
-        subsec_millis = int((instance._unix_seconds - full_unix_secs) * 1000)
-        unix_days = full_unix_secs // SECONDS_PER_DAY
-        secs_of_day = full_unix_secs % SECONDS_PER_DAY
-        instance._ms_of_day = secs_of_day * 1000 + subsec_millis
+        # Split the exact difference to the Unix epoch with integer arithmetic. Going through
+        # the float Unix seconds loses a millisecond whenever the sub-second part has no exact
+        # binary representation.
+        delta = dt.astimezone(datetime.timezone.utc) - UNIX_EPOCH
+        unix_days = delta.days
+        instance._ms_of_day = delta.seconds * 1000 + delta.microseconds // 1000
         instance._ccsds_days = convert_unix_days_to_ccsds_days(unix_days)
         return instance
 
